@@ -293,7 +293,11 @@ def sqlite_snapshot_ops(tier):
     snap_prog = [S.parse_stmt(x) for x in S.program('lib.rs', 'snapshot_group_state')]
     ins = [s for s in snap_prog if s.kind == 'INSERT']
     dels = [s for s in snap_prog if s.kind == 'DELETE']
-    replaces = any(s.conflict == 'REPLACE' for s in ins) or any(sorted(c[0] for c in s.where) == ['group_id', 'snapshot_name'] for s in dels)
+    # replacing means: the rows of the earlier take are gone (row-wise OR REPLACE would keep rows whose key no longer exists live)
+    replaces = any(sorted(c[0] for c in s.where) == ['group_id', 'snapshot_name'] and all(c[1] == '=' for c in s.where) for s in dels)
+    if any(getattr(s, 'or_clause', None) == 'REPLACE' for s in ins) and not replaces:
+        r.fail('O3/sqlite-retake-merges', 'snapshot_group_state re-takes a snapshot with INSERT OR REPLACE without clearing (snapshot_name, group_id) first: rows captured by the earlier take '
+               'whose key no longer exists (e.g. a relay removed since) stay in the snapshot and come back on rollback')
     # the DELETE must come before the INSERTs and inside the transaction
     if replaces and dels:
         kinds = [x.kind for x in snap_prog]
